@@ -51,6 +51,8 @@ pub struct NHistory {
     token_bound: HashMap<u64, SocketAddr>, // token -> the address its MAC was first recorded for by the server
     bound_order: Vec<u64>,                 // tokens in the order the server recorded them
     last_heard: HashMap<u64, std::time::Duration>, // client id -> server time of the last event that certainly was an authentic arrival
+    sealed_by: HashMap<Vec<u8>, (u64, Option<Vec<u8>>)>, // codec suite: datagram -> (protocol id, key) it was sealed with
+    challenge_nonces: HashMap<u64, Vec<u8>>,             // challenge token sequence -> sealed challenge token seen with it
     max_accepted: HashMap<(u8, u64), u64>, // (direction, client k) -> highest sequence accepted in the current session
     owner_crafted: bool,                 // the datagram being delivered was sealed by the owner of the token (op 155)
     delivered_to_client: HashMap<u64, HashSet<Vec<u8>>>,
@@ -114,6 +116,8 @@ impl NHistory {
             token_bound: HashMap::new(),
             bound_order: vec![],
             last_heard: HashMap::new(),
+            sealed_by: HashMap::new(),
+            challenge_nonces: HashMap::new(),
             max_accepted: HashMap::new(),
             owner_crafted: false,
             delivered_to_client: HashMap::new(),
@@ -189,6 +193,27 @@ impl NHistory {
     }
     fn log_server_out(&mut self, bytes: Vec<u8>, dst: SocketAddr, payload: Option<Vec<u8>>) {
         self.check_nonce(1, 0, &bytes);
+        // C17: the challenge token inside a challenge packet is sealed under the challenge key with its sequence as nonce:
+        // one sequence never carries two different tokens
+        if bytes.first().map(|p| p & 15 == 2).unwrap_or(false) {
+            let mut found: Option<(u64, Vec<u8>)> = None;
+            for t in self.tokens.values() {
+                let mut copy = bytes.clone();
+                if let Ok((_, Packet::Challenge { token_sequence, token_data })) = Packet::decode(&mut copy, t.protocol, Some(&t.s2c), None) {
+                    found = Some((token_sequence, token_data.to_vec()));
+                    break;
+                }
+            }
+            if let Some((ts, td)) = found {
+                match self.challenge_nonces.get(&ts) {
+                    Some(prev) if *prev != td => self.violate("C17", format!("two different challenge tokens were sealed with challenge sequence {} (one key, one nonce)", ts)),
+                    Some(_) => {}
+                    None => {
+                        self.challenge_nonces.insert(ts, td);
+                    }
+                }
+            }
+        }
         if bytes.len() > 1400 {
             self.violate("C13", format!("the server produced a datagram of {} bytes", bytes.len()));
         }
@@ -628,6 +653,30 @@ impl NHistory {
                 }
                 if self.res.panicked {
                     self.violate("C07", "NetcodeClient::new panicked".to_string());
+                }
+            }
+            124 => {
+                let obs = self.emit(op);
+                if let (Some([Tree::N(0), Tree::B(bytes)]), Some(protocol)) = (obs.as_l(), u(2)) {
+                    let key = v.get(4).and_then(|t| t.as_l()).and_then(|o| o.get(1)).and_then(|t| t.as_b()).map(|x| x.to_vec());
+                    self.sealed_by.insert(bytes.clone(), (protocol, key));
+                }
+            }
+            120 => {
+                // C17: a sealed datagram opens only under the key and the protocol id it was sealed with
+                let obs = self.emit(op);
+                if let (Some(bytes), Some(protocol)) = (v.get(1).and_then(|t| t.as_b()), u(2)) {
+                    let key = v.get(3).and_then(|t| t.as_l()).and_then(|o| o.get(1)).and_then(|t| t.as_b()).map(|x| x.to_vec());
+                    let sealed = bytes.first().map(|p| p & 15 != 0).unwrap_or(false);
+                    if let (true, Some((p0, k0))) = (sealed, self.sealed_by.get(bytes).cloned()) {
+                        let opened = obs.as_l().and_then(|o| o.first()).and_then(|t| t.as_u64()) == Some(0);
+                        if opened && (p0 != protocol || k0 != key) {
+                            self.violate("C17", format!("a datagram sealed for protocol id {} opened under protocol id {}{}", p0, protocol, if k0 != key { " and another key" } else { "" }));
+                        }
+                    }
+                }
+                if self.res.panicked {
+                    self.violate("C07", "Packet::decode panicked".to_string());
                 }
             }
             101 => {
